@@ -355,33 +355,43 @@ def _xor_before_mul(b):
 
 
 def _encoder_limit_shape(prog):
-    bs = [b for b in prog.prod_bodies() if (b.impl_self_def or "").endswith("codec::shadowsocks::ChunkEncoder") and b.method == "encode_payload"]
-    if not bs:
-        return False
-    b = bs[0]
-    mins = [(blk, c, t) for (blk, c, t) in b.calls() if c.name == "Ord::min"]
-    if len(mins) != 1:
-        return False
-    (blk, c, t) = mins[0]
-    # the bound operand derives from self.payload_limit through two subtractions
-    p = op_place(t["args"][1])
-    if p is None:
-        return False
-    locs, calls, _ = b.slice_back([p[0]])
-    subs = 0
-    from_limit = False
-    for l in locs:
-        for d in b.defs().get(l, []):
-            if d[0] == "assign":
-                rv = d[3]["rv"]
-                if rv["k"] == "bin" and rv["op"].startswith("Sub"):
-                    subs += 1
-                if rv["k"] == "use":
-                    pp = op_place(rv["op"])
-                    if pp and any(e[0] == "field" and e[2] == "payload_limit" for e in pp[1]):
-                        from_limit = True
-    names = {cc.name for (_, cc, _) in calls}
-    # and the min result is the length handed to encode_chunk
-    fwd, fcalls, _ = b.slice_fwd([t["dest"][0]])
-    to_chunk = any(cc.method == "encode_chunk" and i == 2 for (_, cc, _, i) in fcalls)
-    return subs == 2 and from_limit and to_chunk and "CipherMethod::tag_size" in names and any(n.endswith("size_bytes") for n in names)
+    """the chunk encoder (the type built by the `enc` constructor calls) has a method that bounds the chunk with
+    `min(remaining, <limit field> - a - b)` and hands that length on to the chunk writer. Identified by shape, not by method / field names."""
+    ctor_types = set()
+    for b in prog.prod_bodies():
+        for (blk, c, t) in b.calls():
+            if c.name == "ChunkEncoder::new" and "shadowsocks" in c.target:
+                ctor_types.add(c.self_def)
+    for b in prog.prod_bodies():
+        if b.impl_self_def not in ctor_types or b.root != b.defp:
+            continue
+        mins = [(blk, c, t) for (blk, c, t) in b.calls() if c.name == "Ord::min"]
+        if len(mins) != 1:
+            continue
+        (blk, c, t) = mins[0]
+        ok_arg = False
+        for a in t["args"]:
+            p = op_place(a)
+            if p is None:
+                continue
+            locs, calls, _ = b.slice_back([p[0]])
+            subs = 0
+            from_field = False
+            for l in locs:
+                for d in b.defs().get(l, []):
+                    if d[0] == "assign":
+                        rv = d[3]["rv"]
+                        if rv["k"] == "bin" and rv["op"].startswith("Sub"):
+                            subs += 1
+                        if rv["k"] == "use":
+                            pp = op_place(rv["op"])
+                            if pp and pp[0] == 1 and any(e[0] == "field" for e in pp[1]) and b.local_ty(d[3]["p"][0]) == "usize":
+                                from_field = True
+            size_calls = [cc for (_, cc, _) in calls if cc.target.startswith("octo_squirrel")]
+            if subs == 2 and from_field and len(size_calls) >= 2:
+                ok_arg = True
+        fwd, fcalls, _ = b.slice_fwd([t["dest"][0]])
+        to_chunk = any(cc.target.startswith("octo_squirrel") for (_, cc, _, i) in fcalls)
+        if ok_arg and to_chunk:
+            return True
+    return False
